@@ -933,18 +933,23 @@ class Atoms:
             print("WARNING: requested fractional coordinates, but there is no unit cell. Using cartesian coordinates")
             use_fract_coords = False
 
+        def fmt(v):
+            # a coordinate that rounds to zero is written without sign, so that -1e-17 and 0 give the same text
+            s = "%.4f" % v
+            return "0.0000" if s == "-0.0000" else s
+
         if use_fract_coords == True:
             coords_labels = ["_atom_site_fract_x", "_atom_site_fract_y", "_atom_site_fract_z"]
             cell_inv = np.linalg.inv(self.cell)
             fractional_coords = self.positions.dot(cell_inv)
-            coords = [["%.4f" % s for s in fractional_coords[:,0]],
-                      ["%.4f" % s for s in fractional_coords[:,1]],
-                      ["%.4f" % s for s in fractional_coords[:,2]],]
+            coords = [[fmt(s) for s in fractional_coords[:,0]],
+                      [fmt(s) for s in fractional_coords[:,1]],
+                      [fmt(s) for s in fractional_coords[:,2]],]
         else:
             coords_labels = ["_atom_site_Cartn_x", "_atom_site_Cartn_y", "_atom_site_Cartn_z"]
-            coords = [["%.4f" % s for s in self.positions[:,0]],
-                      ["%.4f" % s for s in self.positions[:,1]],
-                      ["%.4f" % s for s in self.positions[:,2]],]
+            coords = [[fmt(s) for s in self.positions[:,0]],
+                      [fmt(s) for s in self.positions[:,1]],
+                      [fmt(s) for s in self.positions[:,2]],]
 
         block.AddLoopItem(([
                 "_atom_site_label",
